@@ -2,6 +2,7 @@ import Sourmash.Lemmas.SimilarityNum
 import Sourmash.Lemmas.SimilarityAng
 import Sourmash.Lemmas.SimilarityReal
 import Sourmash.Lemmas.SimilarityDiv
+import Sourmash.Theorems.C01
 /-!
 Property C05 — similarity, containment and angular similarity are exact on retained hashes.
 Property theorems only; helper lemmas live in `Sourmash/Lemmas/Similarity*.lean`.
@@ -568,5 +569,71 @@ theorem ratio_binary64_mono (c c' s : ℕ) (hc : 0 < c) (hcc : c ≤ c') (hcs : 
 example : ∃ m k m' k' : ℕ, Scaled.fdiv (Scaled.ofNat 2) (Scaled.ofNat 7) = (m, -(k : ℤ)) ∧
     Scaled.fdiv (Scaled.ofNat 5) (Scaled.ofNat 7) = (m', -(k' : ℤ)) ∧ m * 2 ^ k' ≤ m' * 2 ^ k :=
   ratio_binary64_mono 2 5 7 (by decide) (by decide) (by decide) (by decide)
+
+/-! ### the standing hypotheses discharged by C01 for sketches built through the API
+
+Every theorem above takes `Sorted a.mins` (hashes strictly increasing) and, for abundance walks,
+`ab.length = a.mins.length`, as hypotheses: they are C01's representation invariant.  C01 proves it
+(`Sourmash.C01.vec_refines`, `Sourmash.C01.tree_refines`) about *its* models of the two containers
+(`Model/MinHash.lean`), this file is about operands of type `Similarity.Sketch`; the two are linked by
+reading a C01 sketch as an operand (`ofVec`, `ofTree`: same `num`, `ksize`, ceiling, `mins()`,
+`abunds()`; hash function and seed are not part of C01's model and are free).  For an operand obtained
+this way from ANY history of `new / add / set / remove / remove_many / clear / merge` the hypotheses
+hold, so every theorem of this file applies to it with the hash-list hypotheses discharged; one closed
+instance (`jaccard_pair_scaled_of_histories`) is stated in full. -/
+
+/-- a vector-backed sketch of C01's model read as an operand of this property's model -/
+def ofVec (v : MH.Vec) (hf seed : Nat) : Sketch :=
+  { num := v.num, ksize := v.ksize, hf := hf, seed := seed, maxHash := v.maxHash,
+    mins := v.mins, abunds := v.abunds }
+/-- a tree-backed sketch of C01's model read as an operand (`abunds()` = the map's values) -/
+def ofTree (t : MH.Tree) (hf seed : Nat) : Sketch :=
+  { num := t.num, ksize := t.ksize, hf := hf, seed := seed, maxHash := t.maxHash,
+    mins := t.mins, abunds := t.abundVals }
+
+/-- after any well-formed history the vector-backed operand satisfies both standing hypotheses
+(`Sourmash.C01.vec_refines`) -/
+theorem history_operand_vec (mh : Nat) (H : Sample.Hist) (hwf : H.WF mh) (hf seed : Nat) :
+    Sorted (ofVec (Sample.runVec mh H) hf seed).mins ∧
+    ∀ ab, (ofVec (Sample.runVec mh H) hf seed).abunds = some ab →
+      ab.length = (ofVec (Sample.runVec mh H) hf seed).mins.length :=
+  ⟨(Sourmash.C01.vec_refines mh H hwf).2.sorted, (Sourmash.C01.vec_refines mh H hwf).2.aligned⟩
+
+/-- after any well-formed history without `set` (the tree type has none) the tree-backed operand does
+(`Sourmash.C01.tree_refines`) -/
+theorem history_operand_tree (mh : Nat) (H : Sample.Hist) (hwf : H.WF mh) (hns : H.NoSet) (hf seed : Nat) :
+    Sorted (ofTree (Sample.runTree mh H) hf seed).mins ∧
+    ∀ ab, (ofTree (Sample.runTree mh H) hf seed).abunds = some ab →
+      ab.length = (ofTree (Sample.runTree mh H) hf seed).mins.length := by
+  have inv := (Sourmash.C01.tree_refines mh H hwf hns).2
+  refine ⟨inv.sorted, ?_⟩
+  intro ab hab
+  simp only [ofTree, MH.Tree.abundVals, Option.map_eq_some_iff] at hab
+  obtain ⟨m, hm, rfl⟩ := hab
+  have := congrArg List.length (inv.aligned m hm)
+  simpa [ofTree] using this
+
+/-- a history: a tracked scaled sketch (ceiling 1000) after `add 5 ×2`, `add 1`, `add 5` -/
+def exHist : Sample.Hist := .op (.op (.op (.new 0 true) (.add 5 2)) (.add 1 1)) (.add 5 1)
+example : exHist.WF 1000 ∧ exHist.NoSet ∧ (ofVec (Sample.runVec 1000 exHist) 0 42).mins = [1, 5] ∧
+    (ofTree (Sample.runTree 1000 exHist) 0 42).abunds = some [1, 3] := by
+  refine ⟨?_, ?_, by decide, by decide⟩ <;> simp [exHist, Sample.Hist.WF, Sample.Hist.NoSet, Sample.Op.noSet, Sample.WFp]
+
+/-- T-jaccard_pair (scaled), closed over C01: for two scaled sketches produced by ANY two histories
+(vector-backed; same ceiling, hence compatible when ksize, hash function and seed agree) the pair
+`intersection_size` returns is `(|A ∩ B|, |A ∪ B|)` of the hash sets they hold — no hypothesis on the
+lists is left. -/
+theorem jaccard_pair_scaled_of_histories (c : Container) (mh : Nat) (H K : Sample.Hist)
+    (hH : H.WF mh) (hK : K.WF mh) (hf seed : Nat)
+    (hc : checkCompatible (ofVec (Sample.runVec mh H) hf seed) (ofVec (Sample.runVec mh K) hf seed) = .ok ())
+    (hn : (Sample.runVec mh H).num = 0) :
+    intersectionSize c (ofVec (Sample.runVec mh H) hf seed) (ofVec (Sample.runVec mh K) hf seed) =
+      .ok ((inter (Sample.runVec mh H).mins (Sample.runVec mh K).mins).length,
+           (union (Sample.runVec mh H).mins (Sample.runVec mh K).mins).length) :=
+  jaccard_pair_scaled c _ _ hc hn (history_operand_vec mh H hH hf seed).1 (history_operand_vec mh K hK hf seed).1
+example : exHist.WF 1000 ∧
+    checkCompatible (ofVec (Sample.runVec 1000 exHist) 0 42) (ofVec (Sample.runVec 1000 exHist) 0 42) = .ok () ∧
+    (Sample.runVec 1000 exHist).num = 0 := by
+  refine ⟨?_, by decide, by decide⟩; simp [exHist, Sample.Hist.WF, Sample.WFp]
 
 end Sourmash.C05
